@@ -22,11 +22,17 @@ use std::sync::atomic::AtomicUsize;
 use std::sync::Arc;
 use std::task::{Context, Poll, Waker};
 
-/// the stage-0 adapter, kept as itself (not boxed as a mere stream) so that it can be handed over
+/// the top of the stack: head/tail/skip are kept as themselves (not boxed as mere streams) so that
+/// they can be handed over in turn; anything else is the end of the line
+enum Top<I> {
+    Late(Box<dyn Late<I>>),
+    Final(BoxStream<I>),
+}
+
 trait Late<I> {
     fn poll(&mut self, cx: &mut Context<'_>) -> Poll<Option<I>>;
-    /// into_parts, then stage 1 on top of the pair: (values handed over, stage 1's initial values, top)
-    fn hand(self: Box<Self>, st1: &Stage, ls1: ScriptStream<usize>) -> (Vector<u32>, Option<Vector<u32>>, BoxStream<I>);
+    /// into_parts, then the next stage on top of the pair: (values handed over, the next stage's initial values, new top)
+    fn hand(self: Box<Self>, st1: &Stage, ls1: ScriptStream<usize>) -> (Vector<u32>, Option<Vector<u32>>, Top<I>);
 }
 
 impl<I, T> Late<I> for T
@@ -38,19 +44,26 @@ where
     fn poll(&mut self, cx: &mut Context<'_>) -> Poll<Option<I>> {
         Pin::new(self).poll_next(cx)
     }
-    fn hand(self: Box<Self>, st1: &Stage, ls1: ScriptStream<usize>) -> (Vector<u32>, Option<Vector<u32>>, BoxStream<I>) {
+    fn hand(self: Box<Self>, st1: &Stage, ls1: ScriptStream<usize>) -> (Vector<u32>, Option<Vector<u32>>, Top<I>) {
         let (vals, s) = (*self).into_parts();
-        let (v1, s1) = attach_one::<_, I>((vals.clone(), s), st1, ls1);
-        (vals, v1, s1)
+        // from the second level on the lower stream is boxed, so the adapter types do not nest without end
+        let below: BoxStream<I> = Box::pin(s);
+        if matches!(st1.kind.as_str(), "head" | "tail" | "skip") {
+            let (v1, a1) = build_late::<_, I>((vals.clone(), below), st1, ls1);
+            (vals, v1, Top::Late(a1))
+        } else {
+            let (v1, s1) = attach_one::<_, I>((vals.clone(), below), st1, ls1);
+            (vals, v1, Top::Final(s1))
+        }
     }
 }
 
-fn build0<I>(vs: Vector<u32>, src: ScriptStream<I>, st: &Stage, ls: ScriptStream<usize>) -> (Option<Vector<u32>>, Box<dyn Late<I>>)
+fn build_late<O, I>(obs: O, st: &Stage, ls: ScriptStream<usize>) -> (Option<Vector<u32>>, Box<dyn Late<I>>)
 where
     I: Item + VectorDiffContainer<Element = u32>,
-    ScriptStream<I>: Stream<Item = I>,
+    O: VectorObserver<u32>,
+    O::Stream: Stream<Item = I> + Unpin + 'static,
 {
-    let obs = (vs, src);
     let arg = || st.arg.parse::<usize>().unwrap();
     match (st.kind.as_str(), st.flav.as_str()) {
         ("head", "static") => {
@@ -92,34 +105,36 @@ where
     let vs = parse_vec(vec);
     let trace = Rc::new(RefCell::new(String::new()));
     let (src_stream, src_q) = ScriptStream::<I>::new('s', trace.clone());
-    let (ls0, lq0) = ScriptStream::<usize>::new('l', trace.clone());
-    let (ls1, lq1) = ScriptStream::<usize>::new('l', trace.clone());
-    let limits = [lq0, lq1];
-    let mut ls1 = Some(ls1);
+    let mut limits = vec![];
+    let mut lstreams: Vec<Option<ScriptStream<usize>>> = vec![];
+    for _ in stages {
+        let (ls, lq) = ScriptStream::<usize>::new('l', trace.clone());
+        limits.push(lq);
+        lstreams.push(Some(ls));
+    }
+    let ls0 = lstreams[0].take().unwrap();
     let mut params: Vec<Option<usize>> = stages
         .iter()
         .map(|s| if s.flav == "static" || s.flav == "dyninit" { Some(s.arg.parse().unwrap()) } else { None })
         .collect();
-    let built = catch(|| build0::<I>(vs.clone(), src_stream, &stages[0], ls0));
+    let built = catch(|| build_late::<_, I>((vs.clone(), src_stream), &stages[0], ls0));
     let Some((iv, ad0)) = built else {
         out.push_str("init=PANIC");
         return;
     };
-    let mut ad0: Option<Box<dyn Late<I>>> = Some(ad0);
-    let mut top: Option<BoxStream<I>> = None;
+    let mut top: Option<Top<I>> = Some(Top::Late(ad0));
+    let mut level = 0usize; // index of the stage that is the current top
     let mut view: Vector<u32> = iv.clone().unwrap_or_default();
     let mut app_ok = true;
     out.push_str(&format!("init={}", iv.as_ref().map_or("-".to_string(), |v| show_vec(v.iter()))));
     let mut src = vs.clone();
     let mut src_ok = true;
-    let expected = |handed: bool, params: &Vec<Option<usize>>, src: &Vector<u32>| -> Vec<u32> {
-        let below: Vec<u32> = src.iter().copied().collect();
-        let v0 = stage_view(&stages[0], params[0], &below);
-        if handed {
-            stage_view(&stages[1], params[1], &v0)
-        } else {
-            v0
+    let expected = |level: usize, params: &Vec<Option<usize>>, src: &Vector<u32>| -> Vec<u32> {
+        let mut below: Vec<u32> = src.iter().copied().collect();
+        for k in 0..=level {
+            below = stage_view(&stages[k], params[k], &below);
         }
+        below
     };
     for ev in events {
         out.push_str(" ; ");
@@ -132,10 +147,9 @@ where
             loop {
                 n += 1;
                 let mut cx = Context::from_waker(&waker);
-                let r = catch(|| match (ad0.as_mut(), top.as_mut()) {
-                    (Some(a), _) => a.poll(&mut cx),
-                    (None, Some(t)) => t.as_mut().poll_next(&mut cx),
-                    _ => unreachable!(),
+                let r = catch(|| match top.as_mut().unwrap() {
+                    Top::Late(a) => a.poll(&mut cx),
+                    Top::Final(t) => t.as_mut().poll_next(&mut cx),
                 });
                 match r {
                     None => {
@@ -180,26 +194,26 @@ where
                 }
                 return;
             }
-            let handed = ad0.is_none();
             out.push_str(&format!("{}{}", if items.is_empty() { String::new() } else { items.join("+") + "+" }, end));
             if *ev == "D" {
-                let exp = expected(handed, &params, &src);
+                let exp = expected(level, &params, &src);
                 let ok = !src_ok || view.iter().copied().eq(exp.iter().copied());
                 out.push_str(&format!(
                     " v={} ok:stage{}={} ok:app={}",
                     show_vec(view.iter()),
-                    if handed { 1 } else { 0 },
+                    level,
                     b2s(ok),
                     b2s(!src_ok || app_ok)
                 ));
             }
         } else if *ev == "H" {
-            let Some(a) = ad0.take() else {
+            if level + 1 >= stages.len() || !matches!(top, Some(Top::Late(_))) {
                 out.push('.');
                 continue;
-            };
-            let st1 = stages[1].clone();
-            let l1 = ls1.take().unwrap();
+            }
+            let Some(Top::Late(a)) = top.take() else { unreachable!() };
+            let st1 = stages[level + 1].clone();
+            let l1 = lstreams[level + 1].take().unwrap();
             match catch(move || a.hand(&st1, l1)) {
                 None => {
                     out.push_str("H=PANIC");
@@ -217,6 +231,7 @@ where
                     view = v1.unwrap_or_default();
                     app_ok = true;
                     top = Some(s1);
+                    level += 1;
                 }
             }
         } else if let Some(d) = ev.strip_prefix("d:") {
@@ -260,7 +275,7 @@ pub fn run_line(line: &str, out: &mut String) {
             Stage { kind: f[0].into(), flav: f[1].into(), arg: f[2].into(), by_self: false }
         })
         .collect();
-    assert!(stages.len() == 2, "mode hand takes two stages");
+    assert!(stages.len() >= 2, "mode hand takes at least two stages");
     let events: Vec<&str> = evs.split(" ; ").map(|s| s.trim()).filter(|s| !s.is_empty()).collect();
     if first[0] == "b" {
         run_generic::<Vec<VectorDiff<u32>>>(first[1], &stages, &events, out);
